@@ -68,7 +68,7 @@ Record astate := {
   f_own : bool;                (* I completed my feedback's trial and its accounting is not finished (g_own = r_cur) *)
   f_inf : option bool;         (* owner's knowledge of trial.infeasible *)
   f_final : bool;              (* owner's knowledge: final_measurement is set *)
-  f_reward : bool;             (* r_reward is not None *)
+  f_reward : bool;             (* r_reward is not None; it is the final measurement of my feedback's trial, which I completed *)
   d_reg : bool; d_ip : bool; d_lat : bool; d_cc : bool; d_dp : bool; d_inf : bool; d_fb : bool; d_best : bool;   (* the ghost debts, exactly *)
   f_spec : bool;               (* the algorithm is set up: DNASpec stored and both counter resets done (monotone) *)
   f_specnone : bool;           (* under LReg: the algorithm has no DNASpec yet *)
@@ -155,10 +155,10 @@ Definition req_eff (e : effect) (a : astate) : bool :=
   | ESetLatest => L && d_lat a && f_latdone a
   | ESetCur => negb (cur_debts a) && f_mine a
   | ESetCompleted => L && f_curpend a && negb (cur_debts a)
-  | ESetFinalLast => f_own a && f_hasmeas a && (d_best a || inf_is (f_inf a) true) && negb (f_better a)
-  | ESetFinalZero => f_own a && (d_best a || inf_is (f_inf a) true) && negb (f_better a)
+  | ESetFinalLast => f_own a && f_hasmeas a && (d_best a || inf_is (f_inf a) true) && negb (f_better a) && (d_fb a || inf_is (f_inf a) true)
+  | ESetFinalZero => f_own a && (d_best a || inf_is (f_inf a) true) && negb (f_better a) && (d_fb a || inf_is (f_inf a) true)
   | ESetInf => f_own a && d_fb a && d_best a && inf_is (f_inf a) false && negb (d_inf a)
-  | EIncNF => f_own a && d_fb a && inf_is (f_inf a) false && f_spec a
+  | EIncNF => f_own a && d_fb a && inf_is (f_inf a) false && f_spec a && f_reward a
   | ESetSpec => R && f_specnone a && negb (d_rnp a) && negb (d_rnf a)
   | EResetNP => R && d_rnp a
   | EResetNF => R && d_rnf a
@@ -184,12 +184,12 @@ Definition post_eff (e : effect) (a : astate) : astate :=
   | EIncPend => set_debts (d_reg a) false (d_lat a) (d_cc a) (d_dp a) (d_inf a) (d_fb a) (d_best a) a
   | ESetLatest => set_debts (d_reg a) (d_ip a) false (d_cc a) (d_dp a) (d_inf a) (d_fb a) (d_best a)
                     (set_study_facts (f_idfresh a) (f_room a) false false (f_curpend a) (f_bestfresh a) (f_better a) a)
-  | ESetCur => set_cur_facts false false None false
-                 (set_study_facts (f_idfresh a) (f_room a) (f_gotlat a) (f_latdone a) false (f_bestfresh a) false a)
+  | ESetCur => set_misc (f_regmiss a) (f_mine a) false (set_cur_facts false false None false
+                 (set_study_facts (f_idfresh a) (f_room a) (f_gotlat a) (f_latdone a) false (f_bestfresh a) false a))
   | ESetCompleted => set_debts (d_reg a) (d_ip a) (d_lat a) true true (d_inf a) true true
                        (set_cur_facts (f_hasmeas a) true (Some false) false
                           (set_study_facts (f_idfresh a) (f_room a) (f_gotlat a) (f_latdone a) false (f_bestfresh a) (f_better a) a))
-  | ESetFinalLast | ESetFinalZero => set_cur_facts (f_hasmeas a) (f_own a) (f_inf a) true a
+  | ESetFinalLast | ESetFinalZero => set_misc (f_regmiss a) (f_mine a) false (set_cur_facts (f_hasmeas a) (f_own a) (f_inf a) true a)
   | ESetInf => set_debts (d_reg a) (d_ip a) (d_lat a) (d_cc a) (d_dp a) true false false (set_cur_facts (f_hasmeas a) (f_own a) (Some true) (f_final a) a)
   | EComputeReward => set_misc (f_regmiss a) (f_mine a) (f_own a && inf_is (f_inf a) false && f_final a) a
   | EIncNF => set_debts (d_reg a) (d_ip a) (d_lat a) (d_cc a) (d_dp a) (d_inf a) false (d_best a) a
